@@ -143,7 +143,9 @@ def generate(rng, tier):
     plan["input"] = keys
     if kind in ("schema", "dataclass") and rng.random() < 0.15:
         # the data comes as one positional mapping whose keys are not all strings: Cls({...})
-        plan["posmap"] = {"intkey": rng.choice([None, 1, 7]), "value": tdsl.gen_value(rng, ["leaf"], pool, positions, ("x",))}
+        plan["posmap"] = {"intkey": rng.choice([None, 1, 7]), "value": tdsl.gen_value(rng, ["leaf"], pool, positions, ("x",)),
+                          # keys of a str subclass whose str() is not the key itself (class Key(str, Enum) style)
+                          "strsub": rng.random() < 0.4}
     plan["positional"] = rng.choice([0, 0, 1, 2]) if kind == "func" else 0
     fl = {}
     for path, lk, pid in positions:
@@ -184,6 +186,13 @@ def _field_obj(f, param=False):
         kw.pop("required", None)
         return Param(**kw) if kw else None
     return Field(**kw) if kw else None
+
+
+class KeyStr(str):
+    """Equal to (and hashing like) the plain key; str() of it is something else, as for class Key(str, Enum)."""
+
+    def __str__(self):
+        return "KeyStr." + str.__str__(self)
 
 
 def build(plan, dfs, collect):
@@ -247,7 +256,7 @@ def build(plan, dfs, collect):
                     pass
         if runtime is None and plan.get("posmap"):
             def as_mapping(kw):
-                d = dict(kw)
+                d = {KeyStr(k): v for k, v in kw.items()} if plan["posmap"].get("strsub") else dict(kw)
                 if plan["posmap"]["intkey"] is not None:
                     d[plan["posmap"]["intkey"]] = tdsl.build_value(plan["posmap"]["value"])
                 return d
